@@ -9,6 +9,7 @@ import (
 	"context"
 	"fmt"
 	"os"
+	"runtime"
 	"strconv"
 	"strings"
 	"sync"
@@ -48,6 +49,11 @@ type Spec struct {
 	// Core: core dumps enabled for the program: RLIMIT_CORE soft > 0 (through the runner's RLimits)
 	// and a writable working directory for the kernel's "core" file
 	Core bool
+	// Cancel: the caller's context is cancelled around the end of the program:
+	//   "afterend" (container, sync after exec): the sync function blocks until the program has ended
+	//              by itself (EOF on the report pipe: every holder of its write end is gone), then cancels
+	//   "race"     cancel the moment the program announces its final attempt (it may or may not win)
+	Cancel string
 	// CancelOnReady: cancel the run's context as soon as the probe reports "ready" (caller kill)
 	CancelOnReady bool
 	Deadline      time.Duration
@@ -60,7 +66,9 @@ type Outcome struct {
 	ReportEOF bool
 	Setup     string // "" = ok, otherwise why the case could not be set up (never judged)
 	ExtSent   bool
-	Cancelled bool // the driver cancelled the context (CancelOnReady)
+	Cancelled bool // the driver cancelled the context (CancelOnReady / Cancel)
+	// EndedFirst: kernel truth for Cancel "afterend": the program was a zombie before the cancel
+	EndedFirst bool
 }
 
 // Env holds what one worker needs: the probe, a scratch dir and (lazily) one container.
@@ -244,7 +252,7 @@ func (e *Env) Run(s Spec) (out Outcome) {
 	}
 	var cancelRun func()
 	cancelled := false
-	if s.ExtSignal > 0 || s.CancelOnReady {
+	if s.ExtSignal > 0 || s.CancelOnReady || s.Cancel == "race" {
 		go func() {
 			defer close(extDone)
 			for {
@@ -252,6 +260,25 @@ func (e *Env) Run(s Spec) (out Outcome) {
 				mu.Lock()
 				ready := bytes.Contains(raw.Bytes(), []byte("ready "))
 				mu.Unlock()
+				mu.Lock()
+				announced := bytes.Contains(raw.Bytes(), []byte("exiting ")) || bytes.Contains(raw.Bytes(), []byte("raising "))
+				mu.Unlock()
+				if s.Cancel == "race" {
+					if announced {
+						mu.Lock()
+						cancelled = true
+						mu.Unlock()
+						cancelRun()
+						return
+					}
+					select {
+					case <-stop:
+						return
+					default:
+					}
+					runtime.Gosched()
+					continue
+				}
 				if ready && s.CancelOnReady {
 					mu.Lock()
 					cancelled = true
@@ -284,11 +311,34 @@ func (e *Env) Run(s Spec) (out Outcome) {
 	} else {
 		close(extDone)
 	}
+	var closeOurs func()
+	endedFirst := false
 	syncFunc := func(p int) error {
 		once.Do(func() {
 			pid = p
 			close(pidSet)
 		})
+		if s.Cancel == "afterend" {
+			// sync after exec: p is the container init (seen from the host); the program is its child.
+			// Wait until the program has announced its end and every child of init is a zombie: it has
+			// ended by itself (init can not reap it before we return), kernel truth from /proc.
+			for t0 := time.Now(); time.Since(t0) < 20*time.Second; time.Sleep(time.Millisecond) {
+				drain()
+				mu.Lock()
+				announced := bytes.Contains(raw.Bytes(), []byte("exiting ")) || bytes.Contains(raw.Bytes(), []byte("raising "))
+				mu.Unlock()
+				if announced && allChildrenZombies(p) {
+					mu.Lock()
+					endedFirst = true
+					mu.Unlock()
+					break
+				}
+			}
+			mu.Lock()
+			cancelled = true
+			mu.Unlock()
+			cancelRun()
+		}
 		return nil
 	}
 
@@ -315,6 +365,13 @@ func (e *Env) Run(s Spec) (out Outcome) {
 		}
 	}
 	slotsOpen := true
+	closeOurs = func() {
+		repW.Close()
+		if slotsOpen {
+			closeSlots()
+			slotsOpen = false
+		}
+	}
 	defer func() {
 		if slotsOpen {
 			closeSlots()
@@ -412,13 +469,12 @@ func (e *Env) Run(s Spec) (out Outcome) {
 	}
 	mu.Lock()
 	out.Cancelled = cancelled
+	out.EndedFirst = endedFirst
 	mu.Unlock()
 	if ctx.Err() != nil && !out.Cancelled {
 		out.Setup = "driver deadline hit"
 	}
-	repW.Close()
-	closeSlots() // our copy of the report pipe's write end must go, or EOF never comes
-	slotsOpen = false
+	closeOurs()
 	close(stop)
 	<-extDone
 	out.ReportEOF = drain()
@@ -459,6 +515,34 @@ func ParentLimits(pid string) ([16][2]uint64, error) {
 		}
 	}
 	return r, nil
+}
+
+// allChildrenZombies: pid has at least one child and all of its children are in state Z.
+func allChildrenZombies(pid int) bool {
+	tasks, err := os.ReadDir(fmt.Sprintf("/proc/%d/task", pid))
+	if err != nil {
+		return false
+	}
+	n := 0
+	for _, t := range tasks {
+		b, err := os.ReadFile(fmt.Sprintf("/proc/%d/task/%s/children", pid, t.Name()))
+		if err != nil {
+			return false
+		}
+		for _, c := range strings.Fields(string(b)) {
+			st, err := os.ReadFile("/proc/" + c + "/stat")
+			if err != nil {
+				continue // reaped meanwhile
+			}
+			s := string(st)
+			f := strings.Fields(s[strings.LastIndexByte(s, ')')+1:])
+			if len(f) == 0 || f[0] != "Z" {
+				return false
+			}
+			n++
+		}
+	}
+	return n > 0
 }
 
 // ContainerInits returns the pids of the container init processes started by this process
